@@ -1,4 +1,155 @@
-import Anything.Model.Cbor
+import Anything.Lemmas.Index
+import Mathlib.Data.List.Perm.Lattice
+/-!
+# C16 — every shipped fact can be found by its own words
+
+The logic of the repository around the ranking is proved; the ranking itself (tantivy's
+BM25 in `f32`) is outside any theorem and enters as the explicit *separation*
+hypothesis of `C16_meta`, which the check establishes per run by exhaustive execution on
+all shipped constants (labelled partial).
+
+* `C16_one_lookup`: for EVERY shipped constant whose words can be typed, the query made of
+  exactly those words performs exactly one lookup, of exactly that phrase (kernel-checked
+  over the table regenerated from the shipped data: lexer, parser and evaluator models
+  run on each phrase).
+* `C16_query_terms`: the terms the query produces are exactly the terms indexed for the
+  constant (same analyzer on both sides), also with the words permuted; none is lost
+  (`C16_terms_nonempty`), so the constant itself always matches.
+* `C16_meta`: top-1 of any index returns a carrier of all the words as soon as every
+  carrier outscores every non-carrier.
+-/
+
 namespace Anything.Props.C16
-theorem C16_placeholder : True := trivial
+open Anything Anything.Index
+
+/-- **C16 (analyzer knobs the theorems rely on).** Prefix n-grams from length one, lower
+casing, one analyzer registered under the name the field uses, queries parsed against the
+field that is indexed, the single top document is the answer. -/
+theorem C16_db_knobs :
+    Generated.Db.ngramMin = 1 ∧ Generated.Db.ngramPrefixOnly = true ∧ Generated.Db.ngramMin ≤ Generated.Db.ngramMax ∧
+    Generated.Db.analyzerRegisteredForField = true ∧ Generated.Db.queryFieldIsIndexField = true ∧
+    Generated.Db.topLimit = 1 ∧ Generated.Db.fieldNorms = true := by
+  decide
+
+/-- **C16 (one lookup, with exactly the words).** For every shipped constant in scope
+(`typeable`: the lexer model reads its words as WORD / NUMBER tokens separated by blanks,
+the first a WORD), evaluating its words as a query against a database that knows ONLY that
+phrase yields that fact and reports that phrase — so the evaluator looked up exactly this
+phrase and nothing else. -/
+theorem C16_one_lookup :
+    Generated.factChunks.all (fun c => c.all (fun r => !typeable r || oneLookup r)) = true := by
+  decide +kernel
+
+/-- How many shipped constants are in scope (informational; re-checked when the data
+changes). -/
+theorem C16_scope : (Generated.facts.filter typeable).length = 777 ∧ Generated.facts.length = 878 := by
+  decide +kernel
+
+/-- A word without blanks. -/
+def BlankFree (w : List Char) : Prop := w ≠ [] ∧ ' ' ∉ w
+
+theorem splitBlanks_blankFree (w : List Char) (h : ' ' ∉ w) (hne : w ≠ []) : splitBlanks w = [w] := by
+  induction w with
+  | nil => exact absurd rfl hne
+  | cons c cs ih =>
+    have hc : c ≠ ' ' := fun e => h (by simp [e])
+    have hcs : ' ' ∉ cs := fun e => h (List.mem_cons_of_mem _ e)
+    simp only [splitBlanks, hc, ↓reduceIte]
+    cases cs with
+    | nil => simp [splitBlanks]
+    | cons c' cs' => rw [ih hcs (by simp)]
+
+theorem splitBlanks_append (w : List Char) (h : ' ' ∉ w) (hne : w ≠ []) (rest : List Char) :
+    splitBlanks (w ++ ' ' :: rest) = w :: splitBlanks rest := by
+  induction w with
+  | nil => exact absurd rfl hne
+  | cons c cs ih =>
+    have hc : c ≠ ' ' := fun e => h (by simp [e])
+    have hcs : ' ' ∉ cs := fun e => h (List.mem_cons_of_mem _ e)
+    cases cs with
+    | nil => simp [splitBlanks, hc]
+    | cons c' cs' =>
+      have := ih hcs (by simp)
+      simp only [List.cons_append, splitBlanks, hc, ↓reduceIte] at this ⊢
+      rw [this]
+
+/-- The words of the phrase made of blank-free words are those words. -/
+theorem words_joinWords (ws : List (List Char)) (h : ∀ w ∈ ws, BlankFree w) : words (joinWords ws) = ws := by
+  unfold words
+  induction ws with
+  | nil => simp [joinWords, splitBlanks]
+  | cons w rest ih =>
+    obtain ⟨hne, hb⟩ := h w (by simp)
+    cases rest with
+    | nil => simp [joinWords, splitBlanks_blankFree w hb hne, hne]
+    | cons w' rest' =>
+      have ih' := ih (fun x hx => h x (List.mem_cons_of_mem _ hx))
+      simp only [joinWords, List.append_assoc, List.singleton_append]
+      rw [splitBlanks_append w hb hne, List.filter_cons]
+      simp only [ne_eq, hne, not_false_eq_true, decide_true, ↓reduceIte]
+      rw [ih']
+
+/-- **C16 (the query's terms are the constant's indexed terms).** -/
+theorem C16_query_terms (d : Doc) (h : ∀ w ∈ d.tokens, BlankFree w) :
+    queryTerms (joinWords d.tokens) = docTerms d := by
+  unfold queryTerms docTerms
+  rw [words_joinWords d.tokens h]
+
+/-- **C16 (with the words permuted).** Every term of the permuted query is an indexed term
+of the constant, and every indexed term is asked for. -/
+theorem C16_query_terms_perm (d : Doc) (ws : List (List Char)) (hp : ws.Perm d.tokens)
+    (h : ∀ w ∈ d.tokens, BlankFree w) :
+    (queryTerms (joinWords ws)).Perm (docTerms d) := by
+  unfold queryTerms docTerms
+  rw [words_joinWords ws (fun w hw => h w (hp.subset hw))]
+  exact hp.flatMap_right _
+
+/-- **C16 (no word is lost).** With prefix n-grams starting at length one every non-empty
+word yields at least one term — on both sides. -/
+theorem C16_terms_nonempty (w : List Char) (h : w ≠ []) : analyze w ≠ [] := by
+  unfold analyze ngramsOf
+  have h1 : Generated.Db.ngramMin = 1 := by decide
+  have h7 : Generated.Db.ngramMax = 7 := by decide
+  have hl : (lowerWord w).length = w.length := by unfold lowerWord; split <;> simp
+  have hpos : 1 ≤ (lowerWord w).length := by
+    rw [hl]; cases w with
+    | nil => exact absurd rfl h
+    | cons c cs => simp
+  intro hnil
+  have hmem : 1 ∈ (List.range (Generated.Db.ngramMax + 1)).filter
+      (fun k => decide (Generated.Db.ngramMin ≤ k) && decide (k ≤ (lowerWord w).length)) := by
+    rw [List.mem_filter, h1, h7]
+    refine ⟨by simp, ?_⟩
+    simp [hpos]
+  rw [List.map_eq_nil_iff] at hnil
+  rw [hnil] at hmem
+  simp at hmem
+
+/-- A document carries all the words. -/
+def Carries (ws : List (List Char)) (d : Doc) : Prop := ∀ w ∈ ws, w ∈ d.tokens
+
+/-- **C16 (meta-theorem about the ranking).** Whatever the score function and however the
+index was built: if some document of the index carries all the words and matches, and
+every carrier outscores every matching non-carrier (the *separation* the check measures
+on the real BM25 ranking for every shipped constant), then the top document carries all
+the words. -/
+theorem C16_meta (ix : Idx) (score : Doc → Option Nat) (ws : List (List Char))
+    (c : Doc) (hc : c ∈ ix.flatten) (hcar : Carries ws c) (sc : Nat) (hsc : score c = some sc)
+    (hsep : ∀ d ∈ ix.flatten, ¬ Carries ws d → ∀ s, score d = some s →
+      ∀ c' ∈ ix.flatten, Carries ws c' → ∀ s', score c' = some s' → s < s') :
+    ∃ d, top1 score ix = some d ∧ Carries ws d := by
+  obtain ⟨d, hd⟩ := top1_some score ix c hc sc hsc
+  refine ⟨d, hd, ?_⟩
+  obtain ⟨hm, s, hs, hmax⟩ := top1_max score ix d hd
+  by_contra hn
+  have h1 := hsep d hm hn s hs c hc hcar sc hsc
+  have h2 := hmax c hc sc hsc
+  omega
+
+/-- Non-vacuity: a shipped constant in scope, its phrase and its terms. -/
+example : (Generated.facts0.head?).map (fun r => (typeable r, String.ofList (phraseOf r)))
+    = some (true, "mercury orbit distance") := by decide +kernel
+
+example : analyze ['P', 'a', 'n'] = [['p'], ['p', 'a'], ['p', 'a', 'n']] := by decide +kernel
+
 end Anything.Props.C16
